@@ -14,6 +14,7 @@ mod suite_db;
 mod suite_fault;
 mod suite_filter;
 mod suite_lock;
+mod suite_names;
 mod suite_proto;
 mod suite_wfault;
 mod suite_log;
@@ -51,6 +52,7 @@ fn main() {
         "table" => suite_table::run_table,
         "tfile" => suite_table::run_tfile,
         "cache" => suite_cache::run_cache,
+        "names" => suite_names::run_names,
         "vfn" => suite_version::run_vfn,
         "dbhist" => suite_db::run_dbhist,
         "crash" => suite_crash::run_crash,
